@@ -153,6 +153,10 @@ Inductive c13_case :=
             (obs : list (nat * writer * bytes))
 (* the client-level configuration calls in order, whether the exchange ran on a Clone, and the
    options the real client-level dumper turned out to work with *)
+(* a Stop / DumpTo schedule run against the real Dumper with a gated writer: the operations in the
+   order the model sees them (a DumpTo that waits for Stop comes after the drain) and the chunks
+   the writer received, in order *)
+| StopCase (async : bool) (ops : list top) (written : list bytes)
 | ClientOpsCase (ops : list cop) (cloned : bool) (effective : option options)
 | ReqOpsCase (ops : list rop) (effective : option options)
 | FlushCase (client request : option options) (header_block : bytes) (chunks : list bytes)
@@ -190,6 +194,10 @@ Definition c13_check (c : c13_case) : bool :=
                    else content (fst d) w (l1 ++ l2) in
                  bytes_eqb predicted (lookup_obs (fst d) w obs))
                                 (universe ds obs)) ds
+  | StopCase async ops written =>
+      let '(st, ex) := run_tops true async ops in
+      list_eqb bytes_eqb (map snd (t_out st)) written &&
+      Nat.eqb (length (tasks_of (t_q st))) 0 && Nat.eqb (length ex) (length written)
   | ClientOpsCase ops cloned effective =>
       let st := run_cops ops in
       match in_force (if cloned then cclone st else st), effective with
